@@ -55,6 +55,14 @@ func (s *Stmt) Close() error {
 // NumInput may also return -1, if the driver doesn't know
 // its number of placeholders. In that case, the sql package
 // will not sanity check Exec or Query argument counts.
+// CheckNamedValue hands argument checking to the target statement when it has its own.
+func (s *Stmt) CheckNamedValue(nv *driver.NamedValue) error {
+	if checker, ok := s.stmt.(driver.NamedValueChecker); ok {
+		return checker.CheckNamedValue(nv)
+	}
+	return driver.ErrSkip
+}
+
 func (s *Stmt) NumInput() int {
 	return s.stmt.NumInput()
 }
